@@ -5,6 +5,7 @@ mod corpus;
 mod gen;
 mod rng;
 mod p15;
+mod p11;
 mod p16;
 mod p17;
 mod p08;
@@ -106,6 +107,7 @@ fn main() {
     let batch = match args.id.as_str() {
         "C15" => p15::run(&args),
         "C16" => p16::run(&args),
+        "C11" => p11::run(&args),
         "C17" => p17::run(&args),
         "C08" => p08::run08(&args),
         "C09" => p08::run09(&args),
